@@ -97,6 +97,7 @@ const (
 	ParseMessageType         byte = 'P'
 	BindMessageType          byte = 'B'
 	ExecuteMessageType       byte = 'E'
+	SyncMessageType          byte = 'S'
 	ErrorResponseType        byte = 'E'
 	ParseCompleteMessageType byte = '1'
 	BindCompleteMessageType  byte = '2'
@@ -273,6 +274,13 @@ func (proxy *PgProxy) ProxyClientConnection(ctx context.Context, errCh chan<- ba
 	// default value empty func to avoid != nil check
 	var spanEndFunc = func() {}
 	var timerObserveFunc = func() time.Duration { return 0 }
+	// Extended query protocol: a client sends Parse, Bind, Describe, Execute ... and then Sync without waiting for
+	// answers. When AcraCensor rejects the Parse that opens such an exchange, the rest of the exchange belongs to the
+	// rejected statement: like the database itself after an error, we discard it up to the Sync and answer the Sync
+	// with ReadyForQuery.
+	skipUntilSync := false
+	// something of the current exchange has already been forwarded to the database
+	forwardedSinceSync := false
 	for {
 		timerObserveFunc()
 		packet.Reset()
@@ -288,6 +296,17 @@ func (proxy *PgProxy) ProxyClientConnection(ctx context.Context, errCh chan<- ba
 			logger.WithError(err).Debugln("Can't read packet from client to database")
 			errCh <- base.NewClientProxyError(err)
 			return
+		}
+		if skipUntilSync && !packet.terminatePacket {
+			if packet.messageType[0] == SyncMessageType {
+				skipUntilSync = false
+				n, err := proxy.clientConnection.Write(ReadyForQuery)
+				if err := base.CheckReadWrite(n, len(ReadyForQuery), err); err != nil {
+					errCh <- base.NewClientProxyError(err)
+					return
+				}
+			}
+			continue
 		}
 		timer := prometheus.NewTimer(prometheus.ObserverFunc(base.RequestProcessingTimeHistogram.WithLabelValues(prometheusLabels...).Observe))
 		timerObserveFunc = timer.ObserveDuration
@@ -311,6 +330,15 @@ func (proxy *PgProxy) ProxyClientConnection(ctx context.Context, errCh chan<- ba
 		// If the packet has been rejected by AcraCensor, stop here and don't send it to the database.
 		// Also, craft and send the client an error so that they know their query has been rejected.
 		if censored {
+			if packet.IsParse() && !forwardedSinceSync {
+				// the error now, ReadyForQuery when the client's Sync arrives
+				if err := proxy.sendClientErrorResponse(base.AcraCensorBlockedThisQuery, logger); err != nil {
+					errCh <- base.NewClientProxyError(err)
+					return
+				}
+				skipUntilSync = true
+				continue
+			}
 			err := proxy.sendClientError(base.AcraCensorBlockedThisQuery, logger)
 			if err != nil {
 				errCh <- base.NewClientProxyError(err)
@@ -325,6 +353,13 @@ func (proxy *PgProxy) ProxyClientConnection(ctx context.Context, errCh chan<- ba
 				WithError(err).Errorln("Can't send packet")
 			errCh <- base.NewClientProxyError(err)
 			return
+		}
+		switch packet.messageType[0] {
+		case ParseMessageType, BindMessageType, ExecuteMessageType, 'D', 'C', 'H':
+			// Parse, Bind, Execute, Describe, Close, Flush: an exchange is open until its Sync
+			forwardedSinceSync = true
+		case SyncMessageType, QueryMessageType:
+			forwardedSinceSync = false
 		}
 		// If this is a termination packet, we're done here. Signal EOF and stop the proxy.
 		if packet.terminatePacket {
@@ -552,6 +587,18 @@ func (proxy *PgProxy) handleBindPacket(ctx context.Context, packet *PacketHandle
 		return false, nil
 	}
 	return false, nil
+}
+
+// sendClientErrorResponse sends the ErrorResponse message alone
+func (proxy *PgProxy) sendClientErrorResponse(msg string, logger *log.Entry) error {
+	errorMessage, err := NewPgError(msg)
+	if err != nil {
+		logger.WithField(logging.FieldKeyEventCode, logging.EventCodeErrorCodingPostgresqlCantGenerateErrorPacket).
+			WithError(err).Errorln("Can't create PostgreSQL error message")
+		return err
+	}
+	n, err := proxy.clientConnection.Write(errorMessage)
+	return base.CheckReadWrite(n, len(errorMessage), err)
 }
 
 func (proxy *PgProxy) sendClientError(msg string, logger *log.Entry) error {
